@@ -973,21 +973,23 @@ def {method_name}(self, anon_map, bindparams, id_, cls):
         anon_map: anon_map,
         bindparams: List[BindParameter[Any]],
     ) -> Tuple[Any, ...]:
-        return (
-            attrname,
-            tuple(
-                (
-                    dialect_name,
-                    tuple(
-                        [
-                            (key, obj[dialect_name][key])
-                            for key in sorted(obj[dialect_name])
-                        ]
-                    ),
-                )
-                for dialect_name in sorted(obj)
-            ),
+        # only what was specified; the dialect's defaults are filled in
+        # lazily (e.g. when a compiler reads an option) and are the same
+        # for every statement
+        specified = tuple(
+            (
+                dialect_name,
+                tuple(
+                    [
+                        (key, obj[dialect_name]._non_defaults[key])
+                        for key in sorted(obj[dialect_name]._non_defaults)
+                    ]
+                ),
+            )
+            for dialect_name in sorted(obj)
+            if obj[dialect_name]._non_defaults
         )
+        return (attrname, specified) if specified else ()
 
     def visit_string_clauseelement_dict(
         self,
